@@ -59,6 +59,21 @@ HOSTILE_ITEMS = """\
         #[allow(unused_macros)] macro_rules! Err { ($($t:tt)*) => { compile_error!("user macro Err! used") } }
         #[allow(unused_macros)] macro_rules! Option { ($($t:tt)*) => { compile_error!("user macro Option! used") } }
         #[allow(unused_macros)] macro_rules! matches { ($($t:tt)*) => { compile_error!("user macro matches! used") } }
+        #[allow(unused_macros)] macro_rules! unreachable { ($($t:tt)*) => { compile_error!("user macro unreachable! used") } }
+        #[allow(unused_macros)] macro_rules! panic { ($($t:tt)*) => { compile_error!("user macro panic! used") } }
+        #[allow(unused_macros)] macro_rules! assert { ($($t:tt)*) => { compile_error!("user macro assert! used") } }
+        #[allow(unused_macros)] macro_rules! debug_assert { ($($t:tt)*) => { compile_error!("user macro debug_assert! used") } }
+        #[allow(unused_macros)] macro_rules! assert_eq { ($($t:tt)*) => { compile_error!("user macro assert_eq! used") } }
+        #[allow(unused_macros)] macro_rules! todo { ($($t:tt)*) => { compile_error!("user macro todo! used") } }
+        #[allow(unused_macros)] macro_rules! unimplemented { ($($t:tt)*) => { compile_error!("user macro unimplemented! used") } }
+        #[allow(unused_macros)] macro_rules! write { ($($t:tt)*) => { compile_error!("user macro write! used") } }
+        #[allow(unused_macros)] macro_rules! format_args { ($($t:tt)*) => { compile_error!("user macro format_args! used") } }
+        #[allow(unused_macros)] macro_rules! concat { ($($t:tt)*) => { compile_error!("user macro concat! used") } }
+        #[allow(unused_macros)] macro_rules! stringify { ($($t:tt)*) => { compile_error!("user macro stringify! used") } }
+        #[allow(unused_macros)] macro_rules! vec { ($($t:tt)*) => { compile_error!("user macro vec! used") } }
+        #[allow(unused_macros)] macro_rules! cfg { ($($t:tt)*) => { compile_error!("user macro cfg! used") } }
+        #[allow(unused_macros)] macro_rules! line { ($($t:tt)*) => { compile_error!("user macro line! used") } }
+        #[allow(unused_macros)] macro_rules! r#try { ($($t:tt)*) => { compile_error!("user macro try! used") } }
 """
 
 
